@@ -830,7 +830,7 @@ func (s *State) extendFunctionEnv(
 		pval := object.Value(args[paramIdx])
 		needVariable := true
 		// (all caps names are constants and extension names can't be set: they go through the checked setter, never a register.)
-		if !s.NoReg && pval.Type() == object.INTEGER && env.HasRegisters() && registerName(param.Value().Literal()) {
+		if !s.NoReg && pval.Type() == object.INTEGER && env.HasRegisters() && registerName(env, param.Value().Literal()) {
 			// We will release all these registers just by returning/dropping the env.
 			_, nbody, ok := setupRegister(env, param.Value().Literal(), pval.(object.Integer).Value, newBody)
 			if ok {
@@ -920,9 +920,10 @@ func (s *State) evalIfExpression(ie *ast.IfExpression) object.Object {
 }
 
 // registerName tells if a variable of that name may live in a register: constants and extension function names
-// must go through the checked setter so they behave the same with and without registers.
-func registerName(name string) bool {
-	return !object.Constant(name) && !object.IsExtraFunction(name)
+// must go through the checked setter, and names the environment resolves by itself (self, info, the current
+// function's name) are never read from a variable, so they behave the same with and without registers.
+func registerName(env *object.Environment, name string) bool {
+	return !object.Constant(name) && !object.IsExtraFunction(name) && !env.Predefined(name)
 }
 
 func ModifyRegister(register *object.Register, in ast.Node) (ast.Node, bool) {
@@ -995,7 +996,7 @@ func (s *State) evalForInteger(fe *ast.ForExpression, start *int64, end int64, n
 	var newBody ast.Node
 	var register object.Register
 	newBody = fe.Body
-	if name != "" && !s.NoReg && s.env.HasRegisters() && registerName(name) {
+	if name != "" && !s.NoReg && s.env.HasRegisters() && registerName(s.env, name) {
 		var ok bool
 		register, newBody, ok = setupRegister(s.env, name, int64(startValue), fe.Body)
 		if ok {
